@@ -491,6 +491,11 @@ func main() {
 				kk := kase{Salt: hex.EncodeToString(salt), Creds: creds, Plugin: pl, User: "u", RespKind: rp.kind, Resp: hex.EncodeToString(rp.b)}
 				judge(r, m, &sess, kk)
 				n++
+				if i%83 == 1 && pl == plugins[(i/83)%3] && (rp.kind == "native_correct" || rp.kind == "sha2_bitflip" && n%5 == 0) {
+					sl, _ := hex.DecodeString(kk.Salt)
+					w, wns, _, via := reference(kk, sl, rp.b)
+					r.Sample(map[string]interface{}{"case": kk, "reference": [...]string{"reject", "accept", "not defined"}[w], "reference_ns": wns, "via": via})
+				}
 				if rp.kind == "native_correct" || rp.kind == "sha2_correct" || rp.kind == "native_other_users_pw" || rp.kind == "sha2_other_users_pw" {
 					// the same proof presented under another user name
 					for _, u := range []string{otherUser, "w"} {
@@ -498,9 +503,6 @@ func main() {
 						judge(r, m, &sess, kk)
 						n++
 					}
-				}
-				if (i*7+int(n))%60013 == 11 {
-					r.Sample(kk)
 				}
 			}
 		}
